@@ -183,6 +183,9 @@ func Implies(a, b bool) bool { return !a || b }
 // under a watchdog.
 func Budget(steps int) {}
 
+// Contains is strings.Contains as one solver term (no forking).
+func Contains(s, sub string) bool { return strings.Contains(s, sub) }
+
 // Thorough reports whether the check runs in the thorough tier (harnesses
 // pick their larger bounds with it).
 func Thorough() bool { return cur != nil && cur.Thorough }
